@@ -60,6 +60,17 @@ def and_chain(n, ands, with_not=True):
             "output_regs": [acc, 0, acc], "and_ops": ands}
 
 
+def wide_circuit(n, regs=1300):
+    """One AND gate followed by a chain of XORs, every result in a fresh register: more than 1024 registers."""
+    insts = [inst("I", p, 0, p) for p in range(n)]
+    r = n
+    insts.append(inst("A", 0, 1, r))
+    for k in range(regs):
+        insts.append(inst("X", r, k % n, r + 1))
+        r += 1
+    return {"input_regs": [1] * n, "insts": insts, "max_reg": r + 1, "output_regs": [r, n], "and_ops": 1}
+
+
 def fixed_small(n):
     """A few hand-written corner circuits for n parties."""
     cs = []
@@ -168,6 +179,15 @@ def honest_suite(seed, tier):
         pe = rng.randrange(n)
         po = rng.choice(list(nonempty_subsets(n)))
         add_group(f"ands{a}.n{n}", and_chain(n, a), pe, po, mixed=(a >= 1000))
+    # a WIDE circuit (more than 1024 registers, the per-register vectors of the online phase get long) with every party an
+    # output party, also on 1-slot channels
+    for n in (2, 3) if not quick else (2,):
+        wide = wide_circuit(n)
+        g = []
+        for k, cap in enumerate([1, 1, 2, 0]):
+            g.append(job(f"wide.n{n}.{k}", wide, rand_inputs(rng, wide), k % n, list(range(n)), cap=cap, pol=policy(rng, n),
+                         tag={"grp": f"wide.n{n}.pe{k % n}"}))
+        groups.append(g)
     if not quick:
         # (distinct name: the loop above may already have produced a group "ands1001.n3")
         add_group("ands1001.n3.pe2", and_chain(3, 1001), 2, [0, 1], mixed=True)
